@@ -97,6 +97,13 @@ def scenarios(tier, seed):
         for m in ["RK4", "RK45CK"]:
             sc = gen.with_tol(gen.base(m, -1.0, 1.0, 0.25, problem="decay", y0=shape_y0))
             scs.append(sc)
+    # an indefinite integration (target +-inf) WITHOUT events: it runs until something stops it - here a fault in the right-hand side after
+    # a few steps; the recorded grid up to there is an ordinary monotone grid, and the call fails with the injected fault, nothing else
+    for m in ["RK4", "RK45CK"] + (["ABAS5O6H", "BackwardEuler"] if thorough else []):
+        for (a, sg) in ((0.0, 1.0), (1.0, -1.0)):
+            sc = gen.with_tol(gen.base(m, a, a + sg, 0.25))
+            sc["ops"] = [{"op": "integrate", "t": sg * float("inf"), "fault": 40}]
+            scs.append(sc)
     return gen.number(scs, "C03_")
 
 
